@@ -13,7 +13,7 @@ def week_start(c, u):
 
 
 def rand_T(rng):
-    base = rng.randint(1483228800, 1893456000) * NS  # 2017 .. 2030
+    base = rng.randint(946684800, 2051222400) * NS  # 2000 .. 2035 (Moscow civil time was UTC+4 in 2011-2014 and in the summers before; GLONASS time is UTC+3 throughout)
     r = rng.random()
     if r < 0.4:
         c = rng.choice(CONS)
